@@ -203,6 +203,11 @@ class Oracle:
     """Client for the ground evaluator running the real code under /venv/bin/python."""
 
     def __init__(self):
+        self.calls = 0
+        self.timeouts = 0
+        self._start()
+
+    def _start(self):
         env = dict(os.environ)
         env["VERIF_REPO"] = repo_root()
         env["PYTHONPATH"] = os.path.join(repo_root(), "src")
@@ -210,12 +215,26 @@ class Oracle:
         self.p = subprocess.Popen([os.environ.get("VERIF_PY", "/venv/bin/python"),
                                    os.path.join(VERIF, "oracle", "oracle.py")],
                                   stdin=subprocess.PIPE, stdout=subprocess.PIPE, text=True, env=env)
-        self.calls = 0
 
-    def req(self, **kw):
+    def req(self, _timeout=None, **kw):
+        """one request / one answer.  The real code may not terminate (an edit can introduce an unbounded loop): after
+        `_timeout` seconds (default 300, VERIF_ORACLE_TIMEOUT) the evaluator is killed and restarted and the answer is
+        {"ok": False, "timeout": True} - never a verdict by itself."""
+        import select
         self.calls += 1
+        limit = float(_timeout or os.environ.get("VERIF_ORACLE_TIMEOUT", "300"))
         self.p.stdin.write(json.dumps(kw) + "\n")
         self.p.stdin.flush()
+        rd, _, _ = select.select([self.p.stdout], [], [], limit)
+        if not rd:
+            self.timeouts += 1
+            self.p.kill()
+            try:
+                self.p.wait(timeout=5)
+            except Exception:
+                pass
+            self._start()
+            return {"ok": False, "timeout": True, "error": "the real code did not return within %.0f s (request %s)" % (limit, kw.get("op"))}
         line = self.p.stdout.readline()
         if not line:
             raise RuntimeError("oracle died")
